@@ -84,10 +84,10 @@ PLANS = {
     },
     "C06": {
         "level": "exploration",
-        "rule": "cluster runs with <= f crashed nodes (s2), heavy pre-GST delays (s3), late-booting nodes whose round timers are out of phase, and s2b: round-1 leader absent + one node booting 0.80..0.98 of a timeout late, in half of the runs with proposals slower (timeout/20..timeout/10) than all other messages (1..10 ms); oracle: every live node's highest committed round grows in every window W = 6(f+1)*timeout + sync_retry + 2*5s after stabilisation, and (local obligation, always on) a node that enters a round it leads through a timeout certificate proposes before it leaves that round or times out in it; non-trivial = run with a crash or with an asynchronous prefix; distinct = distinct Core-event fingerprints",
+        "rule": "cluster runs with <= f crashed nodes (s2), heavy pre-GST delays (s3), late-booting nodes whose round timers are out of phase, and s2b: round-1 leader absent + one node booting 0.80..0.98 of a timeout late, in half of the runs with proposals slower (timeout/20..timeout/10) than all other messages (1..10 ms), and s3c: heavy pre-GST delays where the last tolerated crash hits the first node that broadcasts a timeout certificate, 20..400 ms after it started (the certificate travels fast on about half of its links and is lost in flight on the others); oracle: every live node's highest committed round grows in every window W = 6(f+1)*timeout + sync_retry + 2*5s after stabilisation, and (local obligation, always on) a node that enters a round it leads through a timeout certificate proposes before it leaves that round or times out in it; non-trivial = run with a crash or with an asynchronous prefix; distinct = distinct Core-event fingerprints",
         "assumptions": ["bounded restatement of liveness (DESIGN.md C06)", "no frame between live nodes is lost; delays <= timeout/10 after GST"],
-        "quick": [J("cluster", "s2", 48, per_process=3, **C06_PARAMS), J("cluster", "s3", 48, per_process=3, **C06_PARAMS), J("cluster", "s2", 32, per_process=2, equal_stakes=1, **C06_PARAMS), J("cluster", "s2b", 64, per_process=4, n=4, equal_stakes=1, timeout_ms=1000, hi_ms=30, sync_retry_ms=1000, duration_ms=120000)],
-        "thorough": [J("cluster", "s2", 2000, **C06_PARAMS), J("cluster", "s3", 2000, **C06_PARAMS), J("cluster", "s2b", 3000, per_process=10, n=4, equal_stakes=1, timeout_ms=1000, hi_ms=30, sync_retry_ms=1000, duration_ms=120000)],
+        "quick": [J("cluster", "s2", 48, per_process=3, **C06_PARAMS), J("cluster", "s3", 48, per_process=3, **C06_PARAMS), J("cluster", "s2", 32, per_process=2, equal_stakes=1, **C06_PARAMS), J("cluster", "s2b", 64, per_process=4, n=4, equal_stakes=1, timeout_ms=1000, hi_ms=30, sync_retry_ms=1000, duration_ms=120000), J("cluster", "s3c", 160, per_process=5, equal_stakes=1, **C06_PARAMS)],
+        "thorough": [J("cluster", "s2", 2000, **C06_PARAMS), J("cluster", "s3", 2000, **C06_PARAMS), J("cluster", "s2b", 3000, per_process=10, n=4, equal_stakes=1, timeout_ms=1000, hi_ms=30, sync_retry_ms=1000, duration_ms=120000), J("cluster", "s3c", 6000, per_process=10, equal_stakes=1, **C06_PARAMS)],
     },
     "C07": {
         "level": "fault_enumeration",
@@ -244,7 +244,7 @@ FLOORS = {
     "C05": {"quick": {"C05.commits_checked": 1000, "sit:C05:certified_2chain_with_gap_shown": 5}},
     "C08": {"quick": {"C08.votes_with_payload_checked": 100, "C08.commits_with_payload_checked": 100}},
     "C10": {"quick": {"C10.round_advances_checked": 2000, "C10.timeouts_checked": 50, "sit:C10:jump_gt_1": 5, "sit:C10:advance_by_tc": 5}},
-    "C06": {"quick": {"C06.windows_checked": 400}},
+    "C06": {"quick": {"C06.windows_checked": 400, "C06.crashes_while_broadcasting_tc": 50}},
     "C07": {"quick": {"C07.recoveries_checked": 20, "C07.puppet_catch_ups_checked": 100, "C07.sync_replies_checked": 1000, "C07.store_order_checked": 10000, "sit:C07:retry_observed": 20}},
 }
 
@@ -280,7 +280,7 @@ META = {
     "C06": M(
         "cluster",
         "bounded-progress window monitor in virtual time over commit events; local obligation monitor (a leader entering its round through a TC proposes)",
-        "Bounded restatement of liveness: with <= f crashed (and three consecutive live leaders in the rotation) and delays <= timeout/10 after GST, every live node's committed round grows in every window W = 6(f+1) timeouts + sync_retry + 10 s. Runs include crashes at random times and from the start, heavy pre-GST delays, nodes that boot late (round timers out of phase) and proposals that are slower than all other messages. Held within the bound on the runs made; not a proof of liveness.",
+        "Bounded restatement of liveness: with <= f crashed (and three consecutive live leaders in the rotation) and delays <= timeout/10 after GST, every live node's committed round grows in every window W = 6(f+1) timeouts + sync_retry + 10 s. Runs include crashes at random times and from the start, heavy pre-GST delays, nodes that boot late (round timers out of phase), proposals that are slower than all other messages, and a node that crashes in the middle of broadcasting a timeout certificate. Held within the bound on the runs made; not a proof of liveness.",
         "Premises are enforced by the scenario generator (no loss between live nodes, delay bound after GST); runs whose plan misses the premise are inconclusive. Slowdowns below the window are invisible.",
     ),
     "C07": M(
